@@ -29,8 +29,6 @@ None when that output is not observable on that interface in that cycle.
 
 All harness components live in this real .py file because pymtl3 inspects the source of update blocks.
 """
-import importlib
-
 from common import MachineryError
 
 DATA_NBITS = 32
@@ -44,8 +42,7 @@ def _ns():
     global _NS
     if _NS is not None:
         return _NS
-    from pymtl3 import (CalleeIfcCL, CallerIfcCL, Component, InPort, OutPort, Wire, connect, non_blocking, update,
-                        update_once)
+    from pymtl3 import CalleeIfcCL, CallerIfcCL, Component, InPort, connect, non_blocking, update, update_once
     from pymtl3.stdlib.ifcs import GetIfcFL, GiveIfcRTL, RecvIfcRTL, SendIfcFL, SendIfcRTL
     from pymtl3.stdlib.stream.ifcs import RecvIfcRTL as ValRecvIfcRTL
     from pymtl3.stdlib.stream.ifcs import SendIfcRTL as ValSendIfcRTL
@@ -554,6 +551,7 @@ class AdapterDut:
         top.sim_reset()
         self._idle()
         self.ngot = 0
+        self.hold = []          # (message object handed to a CL / FL consumer, its value at delivery)
 
     # the order of `up_clear` and the block calling recv() (the one order RecvFL2SendRTL leaves open)
     def clear_first(self):
@@ -641,6 +639,11 @@ class AdapterDut:
             t.reset @= 0
         obs = {"enq_rdy": None, "deq_rdy": None, "ret": None, "deq_msg": None, "count2": None, "ent2": None,
                "clr2": None, "order": "".join(t.log)}
+        # a message that was delivered is a value: the object handed over must not change afterwards
+        for o, v in self.hold:
+            if int(o) != v:
+                obs["illegal"] = "delivered-message-changed-after-delivery"
+        handed = None
         # producer side
         if sk == "C17SrcCL":
             obs["enq_rdy"], obs["enq_xfer"] = src.r_rdy, bool(src.r_x)
@@ -667,7 +670,7 @@ class AdapterDut:
             obs["deq_xfer"] = bool(new)
             if new:
                 obs["deq_msg"] = _i(new[0])
-                obs["deq_rdy"] = True
+                handed = new[0]
             if len(new) > 1:
                 obs["illegal"] = "two-deliveries-in-one-cycle"
             if new and not do:
@@ -676,10 +679,12 @@ class AdapterDut:
             obs["deq_rdy"], obs["deq_xfer"] = snk.r_rdy, bool(snk.r_x)
             if snk.r_x:
                 obs["deq_msg"] = _i(snk.r_msg)
+                handed = snk.r_msg
         elif ck == "C17GetterFL":
             obs["deq_xfer"] = bool(snk.r_ret)
             if snk.r_ret:
                 obs["deq_msg"] = _i(snk.r_msg)
+                handed = snk.r_msg
         elif ck == "C17RecvStub":
             en = int(snk.recv.en)
             obs["deq_xfer"] = bool(en)
@@ -694,6 +699,8 @@ class AdapterDut:
             obs["deq_xfer"] = bool(v and do)
             if v:
                 obs["deq_msg"] = int(snk.recv.msg)
+        if handed is not None and not isinstance(handed, int):
+            self.hold = self.hold[-2:] + [(handed, int(handed))]
         obs["pblk"], obs["cblk"] = self.pblk(), self.cblk()
         # white box: the adapter's buffer
         ad = self.ad
